@@ -219,7 +219,14 @@ func newCenvWith(h map[string]string, mgr *circuit.Manager) *cenv {
 	case "hystrix":
 		e.ocfg = hystrix.ConfigureOpener{ErrorThresholdPercentage: getI(h, "o_pct", 50), RequestVolumeThreshold: getI(h, "o_vol", 20),
 			Now: func() time.Time { return clockBase }, RollingDuration: time.Duration(getI(h, "o_dur", 10_000_000_000)), NumBuckets: int(getI(h, "o_n", 10))}
-		f := hystrix.OpenerFactory(e.ocfg)
+		// the opener's settings reach it through hystrix.Factory layering: thresholds factory-wide, the rest per circuit
+		ohf := hystrix.Factory{
+			ConfigureOpener: hystrix.ConfigureOpener{ErrorThresholdPercentage: e.ocfg.ErrorThresholdPercentage, RequestVolumeThreshold: e.ocfg.RequestVolumeThreshold},
+			CreateConfigureOpener: []func(string) hystrix.ConfigureOpener{func(string) hystrix.ConfigureOpener {
+				return hystrix.ConfigureOpener{Now: e.ocfg.Now, RollingDuration: e.ocfg.RollingDuration, NumBuckets: e.ocfg.NumBuckets}
+			}},
+		}
+		f := ohf.Configure("c").General.ClosedToOpenFactory
 		cfg.General.ClosedToOpenFactory = func() circuit.ClosedToOpen {
 			o := f()
 			if e.hopener == nil || e.sib != nil {
@@ -244,8 +251,15 @@ func newCenvWith(h map[string]string, mgr *circuit.Manager) *cenv {
 	case "hystrix":
 		e.ccfg = hystrix.ConfigureCloser{SleepWindow: time.Duration(getI(h, "c_sleep", 5_000_000_000)), HalfOpenAttempts: getI(h, "c_half", 1),
 			RequiredConcurrentSuccessful: getI(h, "c_req", 1),
-			AfterFunc: func(d time.Duration, f func()) *time.Timer { e.callbacks = append(e.callbacks, f); return nil }}
-		f := hystrix.CloserFactory(e.ccfg)
+			AfterFunc: func(d time.Duration, f func()) *time.Timer { e.callbacks = append(e.callbacks, f); return sleepingTimer() }}
+		// likewise the closer: probe budget and required successes factory-wide, window and timer hook per circuit
+		chf := hystrix.Factory{
+			ConfigureCloser: hystrix.ConfigureCloser{HalfOpenAttempts: e.ccfg.HalfOpenAttempts, RequiredConcurrentSuccessful: e.ccfg.RequiredConcurrentSuccessful},
+			CreateConfigureCloser: []func(string) hystrix.ConfigureCloser{func(string) hystrix.ConfigureCloser {
+				return hystrix.ConfigureCloser{SleepWindow: e.ccfg.SleepWindow, AfterFunc: e.ccfg.AfterFunc}
+			}},
+		}
+		f := chf.Configure("c").General.OpenToClosedFactory
 		cfg.General.OpenToClosedFactory = func() circuit.OpenToClosed {
 			c := f()
 			if e.hcloser == nil || e.sib != nil {
@@ -262,10 +276,12 @@ func newCenvWith(h map[string]string, mgr *circuit.Manager) *cenv {
 	} else {
 		// the initial override flags arrive through LAYERED construction (ForceOpen in an explicit layer, ForcedClosed
 		// in a default constructor of a manager): merging must keep both, so that clearing one later leaves the other
-		lm := &circuit.Manager{DefaultCircuitProperties: []circuit.CommandPropertiesConstructor{func(string) circuit.Config {
-			return circuit.Config{General: circuit.GeneralConfig{ForcedClosed: getB(h, "fc", false)}}
-		}}}
-		e.c = lm.MustCreateCircuit("c", circuit.Config{General: circuit.GeneralConfig{ForceOpen: getB(h, "fo", false)}}, cfg)
+		// likewise IgnoreInterrupts (explicit layer) and the interrupt classifier (default constructor)
+		lower := circuit.Config{General: circuit.GeneralConfig{ForcedClosed: getB(h, "fc", false)}}
+		applyCfg(&lower, map[string]string{"iei": h["iei"]})
+		lm := &circuit.Manager{DefaultCircuitProperties: []circuit.CommandPropertiesConstructor{func(string) circuit.Config { return lower }}}
+		upper := circuit.Config{General: circuit.GeneralConfig{ForceOpen: getB(h, "fo", false)}, Execution: circuit.ExecutionConfig{IgnoreInterrupts: getB(h, "ii", false)}}
+		e.c = lm.MustCreateCircuit("c", upper, cfg)
 		// the sibling shares every factory VALUE with the circuit under test; whatever it does must leave that one alone
 		sibCfg := cfg
 		sibNow := int64(0)
@@ -279,9 +295,9 @@ func newCenvWith(h map[string]string, mgr *circuit.Manager) *cenv {
 		applyCfg(&e.base, h)
 	} else {
 		// fo / fc stay as the layered construction merged them
-		hh := map[string]string{"dis": "0", "to": "0", "mc": "10", "ii": "0", "fbd": "0", "fbmc": "10"}
+		hh := map[string]string{"dis": "0", "to": "0", "mc": "10", "fbd": "0", "fbmc": "10"}
 		for k, v := range h {
-			if k != "fo" && k != "fc" {
+			if k != "fo" && k != "fc" && k != "ii" && k != "iei" {
 				hh[k] = v
 			}
 		}
@@ -541,8 +557,14 @@ func (e *cenv) exec(m map[string]string) string {
 			defer func() { after = ctxErrStr(ctx.Err()) }()
 			if mid := m["mid"]; mid != "" && !e.passthru {
 				// the operator changes a setting while this call is in flight
-				if kv := strings.SplitN(mid, ":", 2); len(kv) == 2 {
-					applyCfg(&e.base, map[string]string{kv[0]: kv[1]})
+				changes := map[string]string{}
+				for _, part := range strings.Split(mid, ",") {
+					if kv := strings.SplitN(part, ":", 2); len(kv) == 2 {
+						changes[kv[0]] = kv[1]
+					}
+				}
+				if len(changes) > 0 { // ONE SetConfigThreadSafe carrying all the changes
+					applyCfg(&e.base, changes)
 					e.c.SetConfigThreadSafe(e.base)
 				}
 			}
@@ -828,6 +850,21 @@ func (circuitSuite) Gen(r *rand.Rand, i int) Case {
 					v = fmt.Sprint(lim())
 				}
 				mid = fmt.Sprintf(" mid=%s:%s", k, v)
+				if r.Intn(3) == 0 {
+					// several settings in one reconfiguration: an override or the pass-through switch together with a limit
+					k2 := pick(r, "fbmc", "mc", "fbd", "to")
+					if k2 != k {
+						v2 := fmt.Sprint(r.Intn(2))
+						switch k2 {
+						case "to":
+							v2 = fmt.Sprint(tos[r.Intn(len(tos))])
+						case "fbmc", "mc":
+							v2 = fmt.Sprint(lim())
+						}
+						mid = fmt.Sprintf(" mid=%s:%s,%s:%s", pick(r, "dis", "dis", "fo", "fc"), fmt.Sprint(r.Intn(2)), k2, v2)
+						tag("mid-call-multi-setting")
+					}
+				}
 				tag("mid-call-reconfig")
 			}
 			via := ""
